@@ -209,6 +209,15 @@ func c11r2(p *Prog, r *Reporter) {
 				}
 				continue
 			}
+			if helper && removalHelper(p, site.Common().StaticCallee(), 0) {
+				// a helper that delivers the removal event (inside its own lock window, checked there): it must run before the removal primitives
+				if reachableNoBackEdge(fn, isRemovalPrim, ins) {
+					r.Bad(name, construct+" (entity removed, via helper)", p.Pos(site.Pos()), "a removal primitive can run before the helper that delivers the removal event: the entity would no longer be inspectable")
+				} else {
+					r.OK(name, construct+" (entity removed, via helper)", p.Pos(site.Pos()), "the removal event's helper runs before the entity's removal primitives")
+				}
+				continue
+			}
 			bad := ""
 			if !unlocked.Before(ins) {
 				bad = "delivered while a lock acquired in this function is held"
@@ -230,6 +239,25 @@ func c11r2(p *Prog, r *Reporter) {
 			}
 		}
 	}
+}
+
+// removalHelper: the function (or a helper it calls, two levels) delivers a removal event directly.
+func removalHelper(p *Prog, fn *ssa.Function, depth int) bool {
+	if fn == nil || depth > 2 {
+		return false
+	}
+	for _, site := range callsIn(fn) {
+		if site.Common().IsInvoke() && site.Common().Method.Name() == "Notify" && isNamed(site.Common().Value.Type(), "/ecs", "Listener") {
+			if _, removal := isRemovalNotify(fn, site); removal {
+				return true
+			}
+			continue
+		}
+		if sc := site.Common().StaticCallee(); sc != nil && p.isArche(sc) && p.notifiers()[sc] && removalHelper(p, sc, depth+1) {
+			return true
+		}
+	}
+	return false
 }
 
 func insValue(ins ssa.Instruction) ssa.Value {
